@@ -89,7 +89,8 @@ def run(ctx):
     for k in range(120 if ctx.tier == 'thorough' else 24):
         if fails >= 3:
             break
-        for fn in (streams_e2e.exact_case, streams_e2e.late_wait_case, streams_e2e.text_flow_case):
+        for fn in (streams_e2e.exact_case, streams_e2e.late_wait_case, streams_e2e.text_flow_case,
+                   streams_e2e.drain_case) + ((streams_e2e.reredirect_case,) if k % 3 == 0 else ()):
             bad, cfg = sshutil.run(fn(ctx.rng), timeout=300)
             ctx.note_case((cfg['kind'],) + tuple(sorted((a, str(b)) for a, b in cfg.items())), nontrivial=True)
             ctx.count('e2e.' + cfg['kind'])
@@ -111,11 +112,12 @@ def replay(rp):
                                               lambda kind, what, d: fails.append((kind, what))))
         print(fails)
         return 1 if any(k == 'C08' for k, _ in fails) else 0
-    if rp.get('kind') in ('stream_exact', 'late_wait', 'text_flow'):
+    if rp.get('kind') in ('stream_exact', 'late_wait', 'text_flow', 'drain', 'reredirect'):
         import random
         rng = random.Random(1)
         fn = {'stream_exact': streams_e2e.exact_case, 'late_wait': streams_e2e.late_wait_case,
-              'text_flow': streams_e2e.text_flow_case}[rp['kind']]
+              'text_flow': streams_e2e.text_flow_case, 'drain': streams_e2e.drain_case,
+              'reredirect': streams_e2e.reredirect_case}[rp['kind']]
         for _ in range(60):
             bad, cfg = sshutil.run(fn(rng), timeout=300)
             if bad:
